@@ -13,10 +13,21 @@ snapshot, garbage, extended, one bit flipped, a valid copy, a stale entry of a d
 Direct oracle (the property itself): the same command run without a cache (for delete / clean on a copy of the backend) gives the
 same stdout rows / restored tree / returned file list / error / resulting object map.
 A sweep at the end of every history puts each listed snapshot's entry through all 8 cut points and the other states.
+
+Clients.  Half of the histories are run by LONG-LIVED clients (library use): ONE `Repository` object per (user, cache directory) and
+ONE event loop for the whole history, so that whatever such an object remembers from its earlier commands (entries it validated,
+downloaded and stored, evicted) meets a cache directory that other clients damaged / replaced / refilled in the meantime; the
+other half create a client per command (the CLI).  The model's client is stateless (`runC` folds `stepC` over the caches of the
+moment), so the same ties and the same oracle apply unchanged; for a long-lived client the loading stage is also run on the
+object itself (directory put back into the damaged state afterwards — the other client's write happened again).  The sweep of a
+long-lived history drives one object through all states of an entry, each state following a command in which that very object
+validated or wrote the entry.
 """
+import asyncio
 import json
 import multiprocessing as mp
 import os
+import random
 import shutil
 
 from ..common import rng_for, digest
@@ -57,6 +68,13 @@ class Case:
     def __init__(self, seed, idx, tier, sc):
         self.r = r = rng_for(seed, 'C18', idx)
         self.idx, self.tier, self.sc = idx, tier, sc
+        # the kind of client is drawn from its own stream (the histories themselves are the same for both kinds)
+        self.rc = rng_for(seed, 'C18-client', idx)
+        self.long_lived = self.rc.random() < 0.5
+        if self.long_lived:
+            R.PERSISTENT_LOOP = asyncio.new_event_loop()     # one loop for the whole history: the kept Repository objects live on it
+        self.clients = {}      # (user, cache directory) -> [Repository, commands run so far]
+        self.used = {}         # (user, cache directory) -> entries that object validated / stored itself in an earlier command
         self.cfg = cfg = gen_world_cfg(r)
         self.layout = r.choice(LAYOUTS)
         self.w = w = World(sc, enc=cfg['enc'], chunking=cfg['chunking'], concurrent=cfg['concurrent'], cipher=cfg['cipher'],
@@ -93,11 +111,30 @@ class Case:
             self.own[ui] = self.sc.dir('cache_u%d' % ui)
         return self.own[ui]
 
+    # ------------------------------------------------------------ clients
+    def client(self, ui, cdir):
+        """the client of user `ui` working with `cdir`: per command (CLI), or the ONE object kept for the whole history"""
+        if not self.long_lived or cdir is None or self.layout == 'fresh':
+            return K.repo_on(self.w, ui, self.w.backend, cdir)
+        key = (ui, str(cdir))
+        if key not in self.clients:
+            self.clients[key] = [K.keep(K.repo_on(self.w, ui, self.w.backend, cdir)), 0]
+        K.settle()
+        return self.clients[key][0]
+
+    def kept(self, ui, cdir):
+        return self.long_lived and cdir is not None and self.layout != 'fresh'
+
     def listed(self):
-        return sorted(loc for loc in self.w.backend.objects if loc.startswith('snapshots/'))
+        """locations of the listed snapshots, in the order they were taken (names are random under encryption: sorting by name
+        would let the run-to-run randomness of nonces decide which snapshot a replayed history tampers with)"""
+        locs = [loc for loc in self.w.backend.objects if loc.startswith('snapshots/')]
+        return sorted(locs, key=lambda loc: (self.w.snap_names.get(loc, (0, 1 << 30))[1], loc))
 
     def tamper(self, cdir, loc, kind, cut_index=None):
-        r, w = self.r, self.w
+        # draws whose number depends on the entry's length (which varies from run to run) come from a sub-stream, so that the
+        # history's own stream — and with it a replay — does not depend on it
+        r, w = random.Random(self.r.getrandbits(64)), self.w
         good = w.backend.objects[loc]
         extra = None
         if kind == 'missing':
@@ -144,17 +181,23 @@ class Case:
             return 'substituted'
         return 'garbage'
 
-    def state_class(self, cdir, ui, sre):
-        """the worst state among the entries the command will read (listed, visible to the user, matching the regex)"""
+    def read_entries(self, cdir, ui, sre, files=None):
+        """location -> state of its entry, for the entries the command will read (listed, visible to the user, matching the regex)"""
         import re
-        if cdir is None:
-            return 'no-cache'
-        found = set()
-        files = K.cache_files(cdir)
+        files = K.cache_files(cdir) if files is None else files
+        out = {}
         for loc in self.listed():
             nm = self.w.snap_by_sid[self.w.snap_names[loc][1]]['name']
             if self.visible(ui, loc) and (sre is None or re.search(sre, nm)):
-                found.add(self.entry_class(files.get(loc), self.w.backend.objects[loc]))
+                out[loc] = self.entry_class(files.get(loc), self.w.backend.objects[loc])
+        return out
+
+    def state_class(self, cdir, ui, sre):
+        """the worst state among the entries the command will read"""
+        if cdir is None:
+            return 'no-cache'
+        files = K.cache_files(cdir)
+        found = set(self.read_entries(cdir, ui, sre, files).values())
         for cls in ('truncated', 'substituted', 'garbage'):
             if cls in found:
                 return cls
@@ -232,9 +275,25 @@ class Case:
         sev = self.state_class(cdir, ui, sre) if cmd != 'snapshot' else 'not-read'
         if cdir is None:
             sev = 'no-cache'
+        # ---- the client: per command, or the one object of this (user, directory) with everything it remembers
+        kept = self.kept(ui, cdir)
+        ckey = (ui, str(cdir))
+        earlier = self.clients[ckey][1] if (kept and ckey in self.clients) else 0
+        redamaged = []         # entries this very object validated / stored in an earlier command and that are invalid now
+        if kept and cmd != 'snapshot':
+            redamaged = sorted(cl for loc, cl in self.read_entries(cdir, ui, sre).items()
+                               if loc in self.used.get(ckey, ()) and cl in ('truncated', 'substituted', 'garbage'))
+        who = 'per-command' if not kept else 'long-lived'
+
+        def ran():       # commands (and loads) this object has run before the one at hand
+            return self.clients[ckey][1] if (kept and ckey in self.clients) else 0
+
+        def tag():
+            return ':long-lived-client' if ran() else ''
         summary = {'cmd': cmd, 'enc': w.enc, 'user': u.kind, 'layout': self.layout if cdir is not None else 'none', 'listed': len(listed),
                    'tampered': sorted((kd[0] + ('@%d' % kd[1] if kd[1] is not None else '')) for _, kd in kinds), 'class': sev,
-                   'sre': None if sre is None else len(sre) - 1, 'fre': fre}
+                   'sre': None if sre is None else len(sre) - 1, 'fre': fre, 'client': who, 'earlier_commands': min(earlier, 4),
+                   'redamaged': redamaged}
         base = {'enc': w.enc, 'store': store0, 'user': w.model_user(ui)}
         msre = {} if sre is None else {'sre': w.sids_matching(sre)}
         mfre = {} if fre is None else {'fre': w.pids_matching(fre)}
@@ -248,26 +307,44 @@ class Case:
                 tmp = self.sc.dir()
                 shutil.rmtree(tmp)
                 shutil.copytree(cdir, tmp)
-            err, items = K.real_load(K.repo_on(w, ui, w.backend, tmp), lre)
-            impl = {'error': err, 'loaded': None if items is None else self.abstract_loaded(items),
-                    'cache_after': None if (tmp is None or err is not None) else K.canon_cache(self.A.cache(tmp))}
+            on_object = kept and self.rc.random() < 0.5
+            if on_object:
+                # the long-lived object itself loads from its own directory; afterwards the directory is put back into the state
+                # the other clients left (their write happened again), so the command below meets the damaged entries too
+                err, items = K.real_load(self.client(ui, cdir), lre)
+                after = None if err is not None else K.canon_cache(self.A.cache(cdir))
+                K.settle()
+                shutil.rmtree(cdir)
+                shutil.copytree(tmp, cdir)
+                summary['load_on'] = 'object'
+            else:
+                err, items = K.real_load(K.repo_on(w, ui, w.backend, tmp), lre)
+                after = None if (tmp is None or err is not None) else K.canon_cache(self.A.cache(tmp))
+            impl = {'error': err, 'loaded': None if items is None else self.abstract_loaded(items), 'cache_after': after}
             if tmp is not None:
                 shutil.rmtree(tmp, ignore_errors=True)
             self.res['model'].append((dict(base, op='cache.load', cache=cache0, **msre), impl, 'load', rp))
             if err is not None:
-                self.res['violations'].append((f'cache:{sev}-entry-breaks-load', f'_load_snapshots fails ({err}) with cache entries {summary["tampered"]} '
-                                               f'although the repository is intact', dict(rp, summary=summary)))
+                self.res['violations'].append((f'cache:{sev}-entry-breaks-load' + (tag() if on_object else ''),
+                                               f'_load_snapshots of a {who if on_object else "per-command"} client fails ({err}) with cache entries '
+                                               f'{summary["tampered"]} although the repository is intact', dict(rp, summary=summary)))
+            if on_object:
+                self.clients[ckey][1] += 1
 
         def differs(what, a, b):
-            self.res['violations'].append((f'cache:{sev}-entry-changes-{cmd}', f'{cmd} by {u.kind} user with cache [{self.layout}; entries {summary["tampered"]}] '
-                                           f'differs from the cache-less run in {what}: with cache {str(a)[:160]} / without {str(b)[:160]}', dict(rp, summary=summary)))
+            self.res['violations'].append((f'cache:{sev}-entry-changes-{cmd}{tag()}',
+                                           f'{cmd} by {u.kind} user ({who} client' + (f', {ran()} earlier commands of the same object' if kept else '') +
+                                           f') with cache [{self.layout}; entries {summary["tampered"]}' +
+                                           (f'; damaged after the object used them: {redamaged}' if redamaged else '') +
+                                           f'] differs from the cache-less run in {what}: with cache {str(a)[:160]} / without {str(b)[:160]}',
+                                           dict(rp, summary=summary)))
 
         # ---- the command itself, with the client's cache and without any
         if cmd == 'snapshot':
             repeat = self.prev is not None and r.random() < 0.25
             fs = self.prev if repeat else gen_fileset(r, self.blocks, self.prev)
             self.prev = fs
-            res = w.snapshot(ui, fs, repo=K.repo_on(w, ui, w.backend, cdir), whole_second=r.random() < 0.2, note=r.choice([None, 'n%d' % no]))
+            res = w.snapshot(ui, fs, repo=self.client(ui, cdir), whole_second=r.random() < 0.2, note=r.choice([None, 'n%d' % no]))
             d = w.snap_by_sid[res['sid']]
             d['result_files'] = res['result'].data['files']
             for dg, cid in zip(res['result'].chunks, d['body']['chunks']):
@@ -288,12 +365,12 @@ class Case:
                 names = [w.snap_by_sid[s]['name'] if s in w.snap_by_sid else ('%064x' % s) for s in sids]
                 op = {'kind': 'delete', 'user': w.model_user(ui), 'sids': sids}
                 err_n = K.run_delete(K.repo_on(w, ui, ref, None), names)
-                err_c = K.run_delete(K.repo_on(w, ui, w.backend, cdir), names)
+                err_c = K.run_delete(self.client(ui, cdir), names)
                 summary['targets'] = len(sids)
             else:
                 op = {'kind': 'clean', 'user': w.model_user(ui)}
                 err_n = K.run_clean(K.repo_on(w, ui, ref, None))
-                err_c = K.run_clean(K.repo_on(w, ui, w.backend, cdir))
+                err_c = K.run_clean(self.client(ui, cdir))
             if err_c != err_n:
                 differs('error', err_c, err_n)
             elif w.backend.objects != ref.objects:
@@ -307,7 +384,7 @@ class Case:
                 if left:
                     self.res['notes'].append(('delete left the cache entry of a deleted snapshot in place', rp))
         elif cmd == 'list':
-            err_c, rows_c = K.run_list(K.repo_on(w, ui, w.backend, cdir), sre)
+            err_c, rows_c = K.run_list(self.client(ui, cdir), sre)
             err_n, rows_n = K.run_list(K.repo_on(w, ui, w.backend, None), sre)
             ca = None if rows_c is None else ([x for x in rows_c if x[2] != '--'], sorted(x for x in rows_c if x[2] == '--'))
             cb = None if rows_n is None else ([x for x in rows_n if x[2] != '--'], sorted(x for x in rows_n if x[2] == '--'))
@@ -317,7 +394,7 @@ class Case:
             impl = {'error': err_c, 'rows': None if rows_c is None else self.rows_to_model(rows_c)}
             self.res['model'].append((dict(base, op='repo.list', **msre), impl, 'list', rp))
         elif cmd == 'listfiles':
-            err_c, rows_c = K.run_list_files(K.repo_on(w, ui, w.backend, cdir), sre, fre)
+            err_c, rows_c = K.run_list_files(self.client(ui, cdir), sre, fre)
             err_n, rows_n = K.run_list_files(K.repo_on(w, ui, w.backend, None), sre, fre)
             if (err_c, rows_c) != (err_n, rows_n):
                 differs('stdout rows / error', (err_c, rows_c), (err_n, rows_n))
@@ -332,7 +409,7 @@ class Case:
                     rows.append([d['ts'] if d else -1, w.pid(row[2]), w.ver(d['truth'].get(row[2], b'?')) if d else -1])
             self.res['model'].append((dict(base, op='repo.listfiles', **msre, **mfre), {'error': err_c, 'rows': rows}, 'listfiles', rp))
         else:
-            err_c, tree_c, files_c = K.run_restore(K.repo_on(w, ui, w.backend, cdir), self.sc, sre, fre)
+            err_c, tree_c, files_c = K.run_restore(self.client(ui, cdir), self.sc, sre, fre)
             err_n, tree_n, files_n = K.run_restore(K.repo_on(w, ui, w.backend, None), self.sc, sre, fre)
             if (err_c, tree_c, files_c) != (err_n, tree_n, files_n):
                 differs('restored tree / returned files / error', (err_c, sorted(tree_c or {})), (err_n, sorted(tree_n or {})))
@@ -349,8 +426,19 @@ class Case:
                     if not os.path.exists(p) or open(p, 'rb').read() != w.backend.objects[loc]:
                         self.res['notes'].append((f'after {cmd} the cache entry of a loaded snapshot is not a valid copy', rp))
                         break
+        if kept:
+            self.clients[ckey][1] += 1
+            if cmd != 'snapshot' and summary.get('error') is None:
+                # what this object has now validated / downloaded and stored itself
+                self.used.setdefault(ckey, set()).update(self.read_entries(cdir, ui, sre))
+            if cmd == 'delete' and summary.get('error') is None:
+                self.used.get(ckey, set()).difference_update(w.snap_by_sid[s]['location'] for s in sids if s in w.snap_by_sid)
         nontrivial = cdir is not None and cmd != 'snapshot' and sev in ('truncated', 'substituted', 'garbage') and len(listed) >= 2
         self.res['cases'].append((summary, nontrivial))
+        self.res['dist'] += ['client:' + who] + (['client:long-lived:earlier-commands:' + ('0' if not earlier else '1-3' if earlier < 4 else '4+')] if kept else [])
+        self.res['dist'] += ['client:long-lived:reads-entry-damaged-after-own-use:' + cl for cl in sorted(set(redamaged))]
+        if kept and cmd != 'snapshot':
+            self.res['dist'].append('client:long-lived:' + ('reads-entry-damaged-after-own-use' if redamaged else 'no-own-entry-damaged'))
         self.res['dist'] += ['cmd:' + cmd + ((':' + summary['error']) if summary.get('error') else ''), 'layout:' + summary['layout'], 'class:' + sev,
                              'user:' + u.kind, 'enc' if w.enc else 'plain'] + ['tamper:' + t for t in summary['tampered']]
 
@@ -367,6 +455,14 @@ class Case:
         if not vis:
             return
         cdir = self.sc.dir('cache_sweep')
+        # a long-lived history sweeps with ONE object: every state of the entry follows a command in which that object
+        # validated the entry or downloaded and stored it itself
+        one = K.keep(K.repo_on(w, ui, w.backend, cdir)) if self.long_lived else None
+        who = 'long-lived' if one is not None else 'per-command'
+
+        def cl():
+            K.settle()
+            return one if one is not None else K.repo_on(w, ui, w.backend, cdir)
         base_list = K.run_list(K.repo_on(w, ui, w.backend, None), None)
         base_lf = K.run_list_files(K.repo_on(w, ui, w.backend, None), None, None)
         base_rs = K.run_restore(K.repo_on(w, ui, w.backend, None), self.sc, None, None)
@@ -381,25 +477,29 @@ class Case:
                 sev = severity([kd[0]])
                 label = kd[0] + ('@%d' % kd[1] if kd[1] is not None else '')
                 if which in (0, 2):
-                    got, want, cmd = K.run_list(K.repo_on(w, ui, w.backend, cdir), None), base_list, 'list'
+                    got, want, cmd = K.run_list(cl(), None), base_list, 'list'
                     split = lambda x: None if x[1] is None else (x[0], [y for y in x[1] if y[2] != '--'], sorted(y for y in x[1] if y[2] == '--'))  # noqa: E731
                     same = split(got) == split(want) and got[0] == want[0]
                 elif which == 1:
-                    got, want, cmd = K.run_list_files(K.repo_on(w, ui, w.backend, cdir), None, None), base_lf, 'listfiles'
+                    got, want, cmd = K.run_list_files(cl(), None, None), base_lf, 'listfiles'
                     same = got == want
                 else:
-                    got, want, cmd = K.run_restore(K.repo_on(w, ui, w.backend, cdir), self.sc, None, None), base_rs, 'restore'
+                    got, want, cmd = K.run_restore(cl(), self.sc, None, None), base_rs, 'restore'
                     same = got == want
                 if not same:
-                    self.res['violations'].append((f'cache:{sev}-entry-changes-{cmd}', f'{cmd} by {u.kind} user with the cache entry of one snapshot set to [{label}] '
-                                                   f'differs from the cache-less run: {str(got)[:160]} / {str(want)[:160]}', dict(rp, state=label)))
+                    self.res['violations'].append((f'cache:{sev}-entry-changes-{cmd}' + (':long-lived-client' if (one is not None and n > 1) else ''),
+                                                   f'{cmd} by {u.kind} user ({who} client' + (f', command #{n} of the same object' if one is not None else '') +
+                                                   f') with the cache entry of one snapshot set to [{label}] '
+                                                   f'differs from the cache-less run: {str(got)[:160]} / {str(want)[:160]}', dict(rp, state=label, client=who)))
                 p = os.path.join(cdir, loc)
                 if got[0] is None and (not os.path.exists(p) or open(p, 'rb').read() != w.backend.objects[loc]):
                     self.res['notes'].append((f'sweep: after {cmd} the entry [{label}] was not replaced by a valid copy', rp))
                 summary = {'cmd': cmd, 'enc': w.enc, 'user': u.kind, 'layout': 'sweep', 'listed': len(listed), 'tampered': [label], 'class': sev,
-                           'entry_len': len(w.backend.objects[loc])}
+                           'entry_len': len(w.backend.objects[loc]), 'client': who}
                 self.res['cases'].append((summary, sev != 'valid-or-missing' and len(listed) >= 2))
-                self.res['dist'] += ['sweep:' + label, 'cmd:' + cmd, 'class:' + sev]
+                self.res['dist'] += ['sweep:' + label, 'cmd:' + cmd, 'class:' + sev, 'sweep-client:' + who]
+                if one is not None and n > 1 and sev != 'valid-or-missing':
+                    self.res['dist'].append('client:long-lived:sweep-state-after-own-use:' + sev)
 
 
 def run_case(arg):
@@ -407,12 +507,15 @@ def run_case(arg):
     from .. import common
     common.use_rebuilt_chunker()
     with R.Scratch(f'c18_{idx}') as sc:
-        c = Case(seed, idx, tier, sc)
-        c.res['cfg'] = dict(c.cfg, layout=c.layout, users=[u.kind for u in c.w.users])
-        for no in range(n_ops):
-            c.step(no, force='snapshot' if no < 2 else None)
-        c.sweep()
-        return c.res
+        try:
+            c = Case(seed, idx, tier, sc)
+            c.res['cfg'] = dict(c.cfg, layout=c.layout, users=[u.kind for u in c.w.users], client='long-lived' if c.long_lived else 'per-command')
+            for no in range(n_ops):
+                c.step(no, force='snapshot' if no < 2 else None)
+            c.sweep()
+            return c.res
+        finally:
+            K.close_persistent_loop()
 
 
 def compare_model(kind, req, impl, m):
@@ -471,9 +574,13 @@ def run(out, drv, info):
     out.rule = ('case = one command (snapshot/delete/clean/list-snapshots/list-files/restore, with regexes) of a history on a real repository (encrypted with owner/clone/'
                 'shared/independent keys, or unencrypted; 5 chunkings; sync/async backend; concurrency 1–5) run by a client whose cache directory layout is '
                 '{none, fresh, shared (+ another repository\'s entries), separate, mixed} after rewriting entries to {missing, empty, prefix at one of 8 cut points, another '
-                'snapshot, another repository\'s snapshot, garbage, extended, bit flip, valid, stale}; plus a sweep of one entry through all 13 states; '
+                'snapshot, another repository\'s snapshot, garbage, extended, bit flip, valid, stale}; the client is per-command (a new Repository object for every command, the CLI) '
+                'or long-lived (ONE Repository object per (user, cache directory) and one event loop for the whole history — about half of the histories — so that entries the object '
+                'validated / downloaded and stored / evicted in its earlier commands are damaged or replaced by other clients before its next command; its loading stage also runs on '
+                'the object itself); plus a sweep of one entry through all 13 states (one object for the whole sweep in a long-lived history); '
                 'non-trivial = the command reads ≥ 1 invalid (truncated / substituted / garbage) entry of a listed, visible, matching snapshot and ≥ 2 snapshots are listed; '
-                'distinct = hash of (command, user kind, layout, tamper multiset with cut index, class, regex shape, #listed)')
+                'distinct = hash of (command, user kind, layout, tamper multiset with cut index, class, regex shape, #listed, kind of client, #earlier commands of the object capped at 4, '
+                'classes of the entries damaged after the object used them)')
     out.assumptions = ['ideal hash: a payload whose digest equals a snapshot name is that snapshot (hypothesis `Agree`/`Ideal` of the theorems)',
                        'the repository objects themselves are intact (WF; corruption of repository objects is C04)',
                        'states of the cache DIRECTORY STRUCTURE other than file contents (unreadable / unwritable directory, a directory where a file is expected) are outside the property\'s quantifier',
@@ -488,6 +595,7 @@ def run(out, drv, info):
         for d in res['dist']:
             out.count(d)
         out.count('layout-of-history:' + res['cfg']['layout'])
+        out.count('client-of-history:' + res['cfg']['client'])
         for sig, what, rp in res['violations']:
             out.violation(sig, what, dict(rp, seed=out.seed))
         for what, rp in res['notes']:
